@@ -114,14 +114,15 @@ def gen(rng, tier):
     # a hub of many states whose successors lie in more than a dozen already separated classes (a class that breaks into many
     # pieces in one refinement round), and plain random DFAs
     big = []
-    for _ in range(1 if quick else 8):
+    # (thorough: every case is run under 16 hash seeds; the numbers are chosen so that one pass over these families stays under two minutes)
+    for _ in range(1 if quick else 2):
         big.append(hub_dfa(rng, rng.randint(12, 14)))
-    for i in range(1 if quick else 8):
-        big.append(shatter_dfa(rng, rng.randint(12, 14), chain=not quick and i % 2 == 0))
-    for _ in range(1 if quick else 8):
+    for i in range(1 if quick else 3):
+        big.append(shatter_dfa(rng, rng.randint(12, 14), chain=not quick and i == 0))
+    for _ in range(1 if quick else 3):
         big.append(G.random_dfa(rng, rng.randint(100, 160), rng.choice(['ab', 'abc']), pfinal=0.5))
     # larger DFAs (36-44 states, three symbols): more than ten classes, classes that break into many pieces in one refinement round
-    for _ in range(3 if quick else 40):
+    for _ in range(3 if quick else 8):
         ds.append(G.random_dfa(rng, rng.randint(36, 44), 'abc', pfinal=0.5))
     cases = [{'D': d, 'log': i % 2 == 1} for i, d in enumerate(ds)] + [{'D': d, 'log': False, 'big': True} for d in big]
     # the same object is minimised, modified in place (accepting set, transitions) and minimised again
